@@ -160,6 +160,98 @@ pub fn write_lib(l: &Logical, api: Api) -> Result<Vec<u8>, String> {
     write_lib_order(l, api, None)
 }
 
+/// An edit of an opened archive: new settings (None = keep), new metadata (None = keep; `Some` of an equal
+/// map is an assignment that changes nothing), tiles removed, tiles added (in this order)
+#[derive(Debug, Clone, Default)]
+pub struct Edit {
+    pub settings: Option<Settings>,
+    pub meta: Option<Map<String, Value>>,
+    pub remove: Vec<u64>,
+    pub add: Vec<(u64, Vec<u8>)>,
+}
+
+impl Edit {
+    /// the logical archive the edit turns `l` into
+    pub fn applied_to(&self, l: &Logical) -> Logical {
+        let mut out = l.clone();
+        if let Some(s) = &self.settings {
+            out.settings = s.clone();
+        }
+        if let Some(m) = &self.meta {
+            out.meta = m.clone();
+        }
+        for id in self.remove.iter() {
+            out.tiles.remove(id);
+        }
+        for (id, c) in self.add.iter() {
+            out.tiles.insert(*id, c.clone());
+        }
+        out
+    }
+    pub fn to_json(&self) -> Value {
+        json!({
+            "settings": self.settings.as_ref().map(|s| s.to_json()),
+            "meta": self.meta.as_ref().map(|m| Value::Object(m.clone())),
+            "remove": self.remove,
+            "add": self.add.iter().map(|(i, c)| json!([i, crate::report::hex(c)])).collect::<Vec<_>>(),
+        })
+    }
+}
+
+fn apply_edit<R>(pm: &mut PMTiles<R>, e: &Edit) -> Result<(), String> {
+    if let Some(s) = &e.settings {
+        pm.tile_type = s.tile_type;
+        pm.tile_compression = s.tile_compression;
+        pm.internal_compression = s.internal;
+        pm.min_zoom = s.min_zoom;
+        pm.max_zoom = s.max_zoom;
+        pm.center_zoom = s.center_zoom;
+        pm.min_longitude = s.coords[0];
+        pm.min_latitude = s.coords[1];
+        pm.max_longitude = s.coords[2];
+        pm.max_latitude = s.coords[3];
+        pm.center_longitude = s.coords[4];
+        pm.center_latitude = s.coords[5];
+    }
+    if let Some(m) = &e.meta {
+        pm.meta_data = m.clone();
+    }
+    for id in e.remove.iter() {
+        pm.remove_tile(*id);
+    }
+    for (id, c) in e.add.iter() {
+        pm.add_tile(*id, c.clone()).map_err(|x| format!("add_tile({id}): {x}"))?;
+    }
+    Ok(())
+}
+
+/// open `bytes` with the `api` flavour, apply the edit through the public fields and methods, write with the
+/// same flavour
+pub fn edit_rewrite(bytes: &[u8], api: Api, e: &Edit) -> Result<Vec<u8>, String> {
+    let r = catch(|| -> Result<Vec<u8>, String> {
+        match api {
+            Api::Sync => {
+                let mut pm = PMTiles::from_reader(Cursor::new(bytes)).map_err(|x| format!("open: {x}"))?;
+                apply_edit(&mut pm, e)?;
+                let mut out = Cursor::new(Vec::new());
+                pm.to_writer(&mut out).map_err(|x| format!("to_writer: {x}"))?;
+                Ok(out.into_inner())
+            }
+            Api::Async => {
+                let mut pm = block_on(PMTiles::from_async_reader(futures::io::Cursor::new(bytes))).map_err(|x| format!("open: {x}"))?;
+                apply_edit(&mut pm, e)?;
+                let mut out = futures::io::Cursor::new(Vec::new());
+                block_on(pm.to_async_writer(&mut out)).map_err(|x| format!("to_async_writer: {x}"))?;
+                Ok(out.into_inner())
+            }
+        }
+    });
+    match r {
+        Ok(x) => x,
+        Err(p) => Err(format!("PANIC {p}")),
+    }
+}
+
 /// Everything observable about an opened archive, read through the public API.
 #[derive(Debug, Clone, PartialEq)]
 pub struct View {
